@@ -7,6 +7,8 @@ extra queries).  Oracles on the real code: deep snapshots (all instance attribut
 managers, RandomState.get_state()) before / after every query; every query repeated; every history run
 twice, once with extra query calls inserted, all later outputs and all later snapshots compared — for the
 budget managers, the baselines and every strategy exported by skactiveml.stream x every budget manager."""
+import os
+
 import numpy as np
 
 from .. import vlib
@@ -15,7 +17,7 @@ from . import _stream as S
 
 LEAN_TARGETS = ["SkaModel.Props.C03", "SkaModel.Props.C03dens"]
 # theorems about, and the executable of, the model translated from the current Python source on every run
-GEN_TARGETS = ["SkaModel.Props.StreamGen", "skagendriver"]
+GEN_TARGETS = [["SkaModel.Props.StreamGen", "skagendriver"], ["SkaModel.Props.DensityGen", "skadensgendriver"]]
 
 LEVEL = "proof"
 RULE = (
@@ -260,6 +262,9 @@ def generate(ctx):
 
     if pystream.generate(ctx) is None:
         ctx.gen_failed = False  # the previous generated file is still in place; its tie is reported broken above
+    from ..translate import pydensity
+
+    pydensity.generate(ctx)
 
 
 def density_windows(ctx, n):
@@ -283,6 +288,14 @@ def density_windows(ctx, n):
     for line, out, (impl, case) in zip(lines, outs, expect):
         if out.split() != impl.split():
             ctx.disagree("SkaModel.Core.Density vs StreamDensityBasedAL (window_, min_dist_, _calculate_ldf)", dict(case, line=line[:300]), out[:500], impl[:500])
+    # the `_calculate_ldf` translated from the current source, executed inside the same window loops
+    groups = getattr(ctx, "gen_ok_groups", [])
+    if ctx.prop == "C03" and len(groups) > 1 and groups[1] and os.path.exists(vlib.DENSGENDRIVER):
+        gouts = vlib.run_driver(["g_" + l for l in lines], exe=vlib.DENSGENDRIVER)
+        for line, out, (impl, case) in zip(lines, gouts, expect):
+            ctx.count("generated_density_cases")
+            if out.split() != impl.split():
+                ctx.disagree("SkaModel.Gen.DensityGen (translated _calculate_ldf) vs StreamDensityBasedAL", dict(case, line=("g_" + line)[:300]), out[:500], impl[:500])
 
 
 def correspond(ctx):
